@@ -299,6 +299,43 @@ def work_multi_optsets(chunk, st):
     st.sample({'multi_target_optsets': [list(o) for o in chunk[:2]]}, cap=3)
 
 
+# ---- policy audits (-P): the verdict and the exit status do not depend on the presentation options either
+POLICY_TEXT = 'name = "c15"\nversion = 1\nciphers = aes256-ctr\nmacs = hmac-sha2-256\nkey exchanges = curve25519-sha256\nhost keys = ssh-ed25519\n'
+
+
+def work_policy_opts(chunk, st):
+    import os
+    path = H.tmp_path('c15-policy-%d.txt' % os.getpid())
+    with open(path, 'w') as f:
+        f.write(POLICY_TEXT)
+    for conforming, opts in chunk:
+        enc = ['aes256-ctr'] if conforming else ['aes256-ctr', 'aes128-cbc']
+
+        def run(o):
+            srv = P.Server(kex=['curve25519-sha256'], key=['ssh-ed25519'], enc=enc, mac=['hmac-sha2-256'], banner=b'SSH-2.0-OpenSSH_9.6')
+            return H.audit(srv, opts=list(o) + ['--skip-rate-test', '-P', path])
+        ref, res = run(('-n',)), run(opts)
+        root = ('policy-opts', conforming, opts)
+        st.execution(res.world, outcome=('policy-opts', res.status, conforming), root=root, nontrivial=root)
+        d = {'peer_conforms': conforming, 'opts': list(opts), 'status': res.status, 'reference_status': ref.status}
+        tag = ' '.join(opts) or '(none)'
+        if res.hang or res.exc or res.status != ref.status or ref.status != (0 if conforming else 3):
+            st.violation('policy-audit:exit-status-changes:%s' % tag, dict(d, exc=res.exc, tail=res.stdout[-200:]))
+            continue
+        if '-j' in opts or '-jj' in opts:
+            try:
+                doc = json.loads(res.stdout)
+                if doc.get('passed') is not conforming or bool(doc.get('errors')) is conforming:
+                    st.violation('policy-audit:verdict-changes:%s' % tag, dict(d, passed=doc.get('passed')))
+            except ValueError:
+                st.violation('policy-audit:json-not-one-document:%s' % tag, dict(d, stdout=res.stdout[:200]))
+        elif min_level(opts) == 'info':
+            pt = report.PolicyText(res.stdout)
+            if (pt.result == 'passed') is not conforming:
+                st.violation('policy-audit:verdict-changes:%s' % tag, dict(d, result=pt.result))
+    st.sample({'policy_optsets': [list(chunk[0][1])]}, cap=2)
+
+
 def work_zoo(chunk, st):
     from props import zoo
     for name in chunk:
@@ -353,6 +390,7 @@ def run(tier, seed):
     from props import zoo, multitarget as MT
     par.pmap(work_zoo, zoo.names(tier), stats=st, chunk=4)
     par.pmap(work_multi_json, [(b, o, k) for b in sorted(MT.FAILING) for o in ('-j', '-jj') for k in (0, 1)], stats=st, chunk=4)
+    par.pmap(work_policy_opts, [(c, o) for c in (True, False) for o in optsets()], stats=st, chunk=6)
     par.pmap(work_multi_optsets, [o for o in optsets() if '-j' in o or '-jj' in o], stats=st, chunk=3)
     vcases = []
     osets = optsets()
@@ -367,7 +405,7 @@ def run(tier, seed):
         PID, tier, seed, st, t0,
         rule='%d peers covering every severity mix (clean, warn-only, failures, Terrapin, unknown, gss, small RSA, small/OpenSSH GEX, SSH-1, header, '
              'certificate, compression, non-ASCII banner%s) x all %d combinations of -b, -v, -n, -l {info,warn,fail}, {text,-j,-jj}, each run twice; '
-             'fresh interpreters under PYTHONHASHSEED 0/1/2/random for selected peers; the peers of props/zoo.py x %d option sets; -T with every failing archetype next to a healthy target under -j and -jj (one well-formed array); -T with two healthy targets under every option set containing -j/-jj, 1 and 2 threads (entries equal those of plain -j)' % (len(ps), ', 24 database slices' if tier != 'quick' else '', len(optsets()), len(ZOO_OPTSETS)),
+             'fresh interpreters under PYTHONHASHSEED 0/1/2/random for selected peers; the peers of props/zoo.py x %d option sets; -T with every failing archetype next to a healthy target under -j and -jj (one well-formed array); -T with two healthy targets under every option set containing -j/-jj, 1 and 2 threads (entries equal those of plain -j); a conforming and a violating peer under -P with every option set (same status, same verdict)' % (len(ps), ', 24 database slices' if tier != 'quick' else '', len(optsets()), len(ZOO_OPTSETS)),
         assumptions=['with colours on, a line\'s level is read from its colour', 'JSON compared with text for names the database knows'],
         exhaustive=True, traces_validated=validated)
 
